@@ -8,6 +8,7 @@ hand-written mux frame parser) and answer according to a per-request *plan*:
   {'act': 'reset'}                            connection error at the client
   {'act': 'garbage'}                          reply with bytes that are not a valid reply
   {'act': 'exc'}                              server-side application exception
+  {'act': 'null'}                             a well-formed reply whose result struct carries no field (no `success`)
 plus, for mux: 'dup' (answer twice), 'bogus' (also send a reply on a never-issued / reserved tag).
 The reply value for a call `hi(x)` is always 'R:' + x, so a caller can tell whose reply it got.
 """
@@ -126,6 +127,8 @@ class ThriftServer(PlannedServer):
       return self.later(delay, lambda: conn.send(pack('!i', len(body)) + body))
     if a == 'exc':
       body = encode_reply(name, seq, app_exc='boom:' + arg)
+    elif a == 'null':
+      body = encode_reply(name, seq, value=None)
     else:
       body = encode_reply(name, seq, value=echo(arg))
     data = pack('!i', len(body)) + body
@@ -229,6 +232,8 @@ class MuxServer(PlannedServer):
       return self.later(delay, lambda: conn.send(mux_frame(R_ERR, tag, b'server says no')))
     if a == 'exc':
       body = pack('!bh', 0, 0) + encode_reply(name, seq, app_exc='boom:' + arg)
+    elif a == 'null':
+      body = pack('!bh', 0, 0) + encode_reply(name, seq, value=None)
     else:
       body = pack('!bh', 0, 0) + encode_reply(name, seq, value=echo(arg))
     frame = mux_frame(R_DISPATCH, tag, body)
